@@ -99,6 +99,8 @@ var c06Origins = []c06Origin{
 	{"referer-malformed", "", "https://keymaster.example/%zz%", false},
 	{"origin-other-port", "https://keymaster.example:8443", "", false},
 	{"origin-lookalike", "https://keymaster.example.evil.net", "", false},
+	{"origin-suffix-lookalike", "https://evilkeymaster.example", "", false},
+	{"referer-suffix-lookalike", "", "https://evil-keymaster.example/x", false},
 	{"origin-userinfo", "https://keymaster.example@evil.net", "", false},
 	{"origin-same+referer-cross", "https://keymaster.example", "https://evil.example.net/", false},
 	{"origin-cross+referer-same", "https://evil.example.net", "https://keymaster.example/", false},
@@ -441,11 +443,11 @@ type c06Gate struct {
 }
 
 var c06Gates = map[string]c06Gate{
-	"runtimeState.certGenHandler":                      {kind: "mask", mask: "any", extra: "self", exercised: c06EffSigned, targets: []string{"alice", "bob"}},
+	"runtimeState.certGenHandler":                      {kind: "mask", mask: "any", extra: "self", exercised: c06EffSigned, targets: []string{"alice", "bob", "admin"}},
 	"runtimeState.publicPathHandler":                   {kind: "public"},
 	"runtimeState.loginHandler":                        {kind: "password", exercised: c06EffSigned},
 	"runtimeState.logoutHandler":                       {kind: "public"},
-	"runtimeState.profileHandler":                      {kind: "mask", mask: "webui", extra: "profile", exercised: c06EffRead, targets: []string{"", "alice", "bob"}},
+	"runtimeState.profileHandler":                      {kind: "mask", mask: "webui", extra: "profile", exercised: c06EffRead, targets: []string{"", "alice", "bob", "admin"}},
 	"runtimeState.usersHandler":                        {kind: "mask", mask: "webui+x509", extra: "admin", exercised: c06EffRead},
 	"runtimeState.addUserHandler":                      {kind: "mask", mask: "webui+x509", extra: "admin", exercised: c06EffChange},
 	"runtimeState.deleteUserHandler":                   {kind: "mask", mask: "webui+x509", extra: "admin", exercised: c06EffChange},
@@ -458,16 +460,16 @@ var c06Gates = map[string]c06Gate{
 	`"/static/"`:                                       {kind: "public"},
 	`"/static/compiled/"`:                              {kind: "public"},
 	`"/custom_static/"`:                                {kind: "public"},
-	"runtimeState.u2fRegisterRequest":                  {kind: "mask", mask: "webui", extra: "self-or-admin-u2f", exercised: c06EffChange, targets: []string{"alice", "bob"}},
-	"runtimeState.u2fRegisterResponse":                 {kind: "mask", mask: "webui", extra: "self-or-admin-u2f", targets: []string{"alice", "bob"}},
+	"runtimeState.u2fRegisterRequest":                  {kind: "mask", mask: "webui", extra: "self-or-admin-u2f", exercised: c06EffChange, targets: []string{"alice", "bob", "admin"}},
+	"runtimeState.u2fRegisterResponse":                 {kind: "mask", mask: "webui", extra: "self-or-admin-u2f", targets: []string{"alice", "bob", "admin"}},
 	"runtimeState.u2fSignRequest":                      {kind: "mask", mask: "any", exercised: c06EffStart},
 	"runtimeState.u2fSignResponse":                     {kind: "mask", mask: "any"},
-	"runtimeState.webauthnBeginRegistration":           {kind: "mask", mask: "webui", extra: "self-or-admin-u2f", exercised: c06EffChange, targets: []string{"alice", "bob"}},
-	"runtimeState.webauthnFinishRegistration":          {kind: "mask", mask: "webui", extra: "self-or-admin-u2f", targets: []string{"alice", "bob"}},
+	"runtimeState.webauthnBeginRegistration":           {kind: "mask", mask: "webui", extra: "self-or-admin-u2f", exercised: c06EffChange, targets: []string{"alice", "bob", "admin"}},
+	"runtimeState.webauthnFinishRegistration":          {kind: "mask", mask: "webui", extra: "self-or-admin-u2f", targets: []string{"alice", "bob", "admin"}},
 	"runtimeState.webauthnAuthLogin":                   {kind: "mask", mask: "any", exercised: c06EffStart},
 	"runtimeState.webauthnAuthFinish":                  {kind: "mask", mask: "any"},
 	"runtimeState.VIPAuthHandler":                      {kind: "mask", mask: "any", exercised: c06EffSigned},
-	"runtimeState.u2fTokenManagerHandler":              {kind: "mask", mask: "webui", extra: "self-or-admin-u2f", exercised: c06EffChange, targets: []string{"alice", "bob"}},
+	"runtimeState.u2fTokenManagerHandler":              {kind: "mask", mask: "webui", extra: "self-or-admin-u2f", exercised: c06EffChange, targets: []string{"alice", "bob", "admin"}},
 	"runtimeState.oauth2DoRedirectoToProviderHandler":  {kind: "public"},
 	"runtimeState.oauth2RedirectPathHandler":           {kind: "own"},
 	"runtimeState.serveClientConfHandler":              {kind: "public"},
@@ -475,7 +477,7 @@ var c06Gates = map[string]c06Gate{
 	"runtimeState.VIPPollCheckHandler":                 {kind: "mask", mask: "any", exercised: c06EffSigned},
 	"runtimeState.GenerateNewTOTP":                     {kind: "mask", mask: "webui", exercised: c06EffChange},
 	"runtimeState.validateNewTOTP":                     {kind: "mask", mask: "webui"},
-	"runtimeState.totpTokenManagerHandler":             {kind: "mask", mask: "webui", extra: "self-or-admin-u2f", exercised: c06EffChange, targets: []string{"alice", "bob"}},
+	"runtimeState.totpTokenManagerHandler":             {kind: "mask", mask: "webui", extra: "self-or-admin-u2f", exercised: c06EffChange, targets: []string{"alice", "bob", "admin"}},
 	"runtimeState.verifyTOTPHandler":                   {kind: "mask", mask: "webui", exercised: c06EffChange},
 	"runtimeState.TOTPAuthHandler":                     {kind: "mask", mask: "any", exercised: c06EffChange | c06EffSigned},
 	"runtimeState.Okta2FAuthHandler":                   {kind: "mask", mask: "any", exercised: c06EffSigned},
@@ -1092,13 +1094,11 @@ func TestVerif_C06(t *testing.T) {
 		{name: "B", webui: []string{"password"}, routes: webuiRoutes, reduced: true},
 		{name: "C", webui: []string{"U2F", proto.AuthTypeOkta2FA}, okta: true, routes: oktaRoutes},
 	}
-	if thorough {
-		configs[1].routes = all
-	}
 	var shapeCoq []string
 	var gateCases, gateIdx []string
 	var groups, routeIdx []string
 	nRoute := 0
+	groupOffset := 0
 	witnessed := map[string]int{}
 	exercisable := map[string]int{}
 	registered := map[string]bool{}
@@ -1258,7 +1258,10 @@ func TestVerif_C06(t *testing.T) {
 							if !full && !reduced {
 								continue
 							}
-							if !thorough && ti > 0 && !(s.cookieValid || s.kmCert) {
+							if ti > 0 && !(s.cookieValid || s.kmCert || s.basicUser != "") {
+								continue
+							}
+							if thorough && ti > 0 && !o.core {
 								continue
 							}
 							probe(si, method, oi, target, false)
@@ -1274,7 +1277,17 @@ func TestVerif_C06(t *testing.T) {
 					}
 				}
 			}
-			groups = append(groups, fmt.Sprintf("(%s, %d%%N, [\n  %s]%%uint63)", coqStringLit(key), p.webui, strings.Join(cases, ";")))
+			// one list literal per at most 3000 cases (coqc's parser recurses on list literals)
+			for len(cases) > 0 {
+				n := len(cases)
+				if n > 3000 {
+					n = 3000
+				}
+				groups = append(groups, fmt.Sprintf("Definition rv_%d := Eval vm_compute in route_chunk shapes now %d %s %d [\n %s]%%uint63.\n",
+					len(groups), groupOffset, coqStringLit(key), p.webui, strings.Join(cases[:n], ";")))
+				groupOffset += n
+				cases = cases[n:]
+			}
 		}
 		if len(env.panics) > 0 {
 			res.Extra["panics_"+cfg.name] = env.panics
@@ -1315,13 +1328,26 @@ func TestVerif_C06(t *testing.T) {
 	sb.WriteString("From KM Require Import Base.Cases Model.Auth Model.AuthGate Model.Routes Model.RouteCases.\nOpen Scope N_scope.\n")
 	sb.WriteString(fmt.Sprintf("Definition now : Z := %s.\n", coqZ(now)))
 	sb.WriteString("Definition shapes : list shape_t := [\n " + strings.Join(shapeCoq, ";\n ") + "].\n")
-	sb.WriteString("Definition gate_cases : list gate_case := [\n " + strings.Join(gateCases, ";") + "]%uint63.\n")
-	sb.WriteString("Definition c06_gate_mismatches := Eval vm_compute in first_bad (map (gate_bad shapes now) gate_cases).\nPrint c06_gate_mismatches.\n")
-	sb.WriteString("Definition route_groups : list route_group := [\n " + strings.Join(groups, ";\n ") + "].\n")
-	sb.WriteString("Definition route_verdicts := Eval vm_compute in flatten_groups shapes now route_groups.\n")
-	sb.WriteString("Definition c06_route_mismatches := Eval vm_compute in first_bad route_verdicts.\nPrint c06_route_mismatches.\n")
-	sb.WriteString("Definition c06_route_mismatch_count := Eval vm_compute in count_true route_verdicts.\nPrint c06_route_mismatch_count.\n")
-	sb.WriteString("Definition c06_ncases := Eval vm_compute in (count_all gate_cases + count_all route_verdicts).\nPrint c06_ncases.\n")
+	var gchunks, rchunks []string
+	for i := 0; i < len(gateCases); i += 3000 {
+		j := i + 3000
+		if j > len(gateCases) {
+			j = len(gateCases)
+		}
+		sb.WriteString(fmt.Sprintf("Definition gv_%d := Eval vm_compute in gate_chunk shapes now %d [\n %s]%%uint63.\n", i/3000, i, strings.Join(gateCases[i:j], ";")))
+		gchunks = append(gchunks, fmt.Sprintf("gv_%d", i/3000))
+	}
+	sb.WriteString("Definition gate_result := Eval vm_compute in merge_chunks [" + strings.Join(gchunks, "; ") + "].\n")
+	sb.WriteString("Definition c06_gate_mismatches := Eval vm_compute in chunk_first gate_result.\nPrint c06_gate_mismatches.\n")
+	for k, g := range groups {
+		sb.WriteString(g)
+		rchunks = append(rchunks, fmt.Sprintf("rv_%d", k))
+	}
+	sb.WriteString("Definition route_result := Eval vm_compute in merge_chunks [" + strings.Join(rchunks, "; ") + "].\n")
+	sb.WriteString("Definition c06_route_mismatches := Eval vm_compute in chunk_first route_result.\nPrint c06_route_mismatches.\n")
+	sb.WriteString("Definition c06_route_mismatch_count := Eval vm_compute in chunk_bad route_result.\nPrint c06_route_mismatch_count.\n")
+	sb.WriteString("Definition c06_gate_mismatch_count := Eval vm_compute in chunk_bad gate_result.\nPrint c06_gate_mismatch_count.\n")
+	sb.WriteString("Definition c06_ncases := Eval vm_compute in (chunk_total gate_result + chunk_total route_result).\nPrint c06_ncases.\n")
 	if err := ioutil.WriteFile(filepath.Join(verifOut(), "CasesC06.v"), []byte(sb.String()), 0644); err != nil {
 		t.Fatal(err)
 	}
@@ -1389,6 +1415,7 @@ func (w *c06Writer) Write(b []byte) (int, error) {
 
 func c06GateCases(p *c06Prober, thorough bool, cases, idx *[]string) {
 	st := p.env.state
+	hitCount := map[string]int{}
 	masks := []int{0, p.webui, p.webui | AuthTypeKeymasterX509, AuthTypeAny, AuthTypeIPCertificate, AuthTypeKeymasterX509, AuthTypeIPCertificate | AuthTypeKeymasterX509,
 		AuthTypePassword, AuthTypePassword | AuthTypeKeymasterX509, AuthTypePassword | AuthTypeIPCertificate, AuthTypeFederated, AuthTypeU2F, AuthTypeSymantecVIP,
 		AuthTypeTOTP, AuthTypeOkta2FA, AuthTypeBootstrapOTP, AuthTypeWebauthForCLI, AuthTypeFIDO2, AuthTypeU2F | AuthTypeIPCertificate, 1, AuthTypeAny &^ AuthTypeKeymasterX509, AuthTypeAny &^ AuthTypeIPCertificate}
@@ -1407,7 +1434,7 @@ func c06GateCases(p *c06Prober, thorough bool, cases, idx *[]string) {
 		for _, mask := range masks {
 			for _, method := range []string{"GET", "POST", "PUT"} {
 				for oi, o := range c06Origins {
-					full := thorough || (s.core && o.core)
+					full := (thorough && (o.core || s.core)) || (s.core && o.core)
 					reduced := (method == "GET" && oi == 0) || (method == "POST" && (oi == 0 || oi == 3))
 					if !full && !reduced {
 						continue
@@ -1443,6 +1470,9 @@ func c06GateCases(p *c06Prober, thorough bool, cases, idx *[]string) {
 							ok = false
 						}
 						if !ok {
+							hitCount[s.class]++
+						}
+						if !ok && hitCount[s.class] <= 2 {
 							p.res.hit(verifHit{Key: fmt.Sprintf("C06:gate-admits:%s", s.class), Oracle: "checkAuth admits an identity / level that no valid credential of a requested kind establishes",
 								What:     fmt.Sprintf("checkAuth(mask=%d) %s origin=%q referer=%q credential %s -> user %q level %d", mask, method, o.origin, o.referer, s.name, ai.Username, level),
 								Case:     map[string]interface{}{"credential": s.name, "mask": mask, "method": method, "origin": o.origin, "referer": o.referer},
